@@ -143,7 +143,8 @@ def _same(a, b):
     return (a == b) and (b == a) and not (a != b) and hash(a) == hash(b)
 
 
-def route(part, kindname, ctor, from_iterable, plain, specs, objs, orders, ref_min, H, hn):
+def route(part, kindname, ctor, from_iterable, plain, specs, objs, orders, ref_min, H, hn,
+          light=False):
     """Build with `ctor` in every order; deep checks on the first result.  Returns it (or None)."""
     L = lib()
     case = {"specs": specs, "route": kindname, "hn": hn}
@@ -191,11 +192,13 @@ def route(part, kindname, ctor, from_iterable, plain, specs, objs, orders, ref_m
             part.violation("seq:class", case, {"got": [show(e) for e in rb],
                                                "differs_on": list(H.perms[i]), "horizon": hn})
         # fixed point, from_iterable with three container types
-        again = [("ctor(*result)", ctor(*res)), ("from_iterable(result)", from_iterable(res)),
-                 ("from_iterable(list)", from_iterable(list(objs))),
-                 ("from_iterable(tuple)", from_iterable(tuple(objs))),
-                 ("from_iterable(iterator)", from_iterable(iter(objs))),
-                 ("from_iterable(generator)", from_iterable(o for o in objs))]
+        again = [("ctor(*result)", ctor(*res)),
+                 ("from_iterable(iterator)", from_iterable(iter(objs)))]
+        if not light:
+            again += [("from_iterable(result)", from_iterable(res)),
+                      ("from_iterable(list)", from_iterable(list(objs))),
+                      ("from_iterable(tuple)", from_iterable(tuple(objs))),
+                      ("from_iterable(generator)", from_iterable(o for o in objs))]
         for name, other in again:
             if not _same(res, other) or type(other) is not ctor:
                 part.violation("seq:fixed" if "result" in name else "seq:from_iterable", case,
@@ -203,7 +206,8 @@ def route(part, kindname, ctor, from_iterable, plain, specs, objs, orders, ref_m
         # canonical: equal to the basis built from the reference's minimal elements, written as
         # plain patterns in a fixed order and in the reverse of it
         pl = [plain(e) for e in F.sort_plain(ref_min)]
-        for name, other in (("canonical", ctor(*pl)), ("canonical-reversed", ctor(*pl[::-1]))):
+        for name, other in ((("canonical-reversed", ctor(*pl[::-1])),) if light else
+                            (("canonical", ctor(*pl)), ("canonical-reversed", ctor(*pl[::-1])))):
             if not _same(res, other):
                 part.violation("seq:canonical", case, {"call": name, "result": repr(res),
                                                        "other": repr(other),
@@ -214,27 +218,36 @@ def route(part, kindname, ctor, from_iterable, plain, specs, objs, orders, ref_m
     return res
 
 
-def av_route(part, specs, objs, orders, base, classical, ref_min, first_seen):
+def av_route(part, specs, objs, orders, base, classical, ref_min, first_seen, ident=None,
+             light=False):
     """Class objects: Av / Av.from_iterable with every container type and order; identity."""
     L = lib()
     case = {"specs": specs, "route": "Av"}
+    if ident is not None:
+        # what the class cache holds depends on everything built before in this shard: the
+        # replay re-executes the shard up to this collection when the collection alone passes
+        case["shard"] = ident
     kind = L.Basis if classical else L.MeshBasis
     expect_error = classical and set(ref_min) == {((), frozenset())}
     calls = []
-    for k, order in enumerate(orders):
+    # (the constructors above went through every order; the class objects are asked for in the
+    # first six orders, which for <= 3 elements is every order)
+    for k, order in enumerate(orders[:2] if light else orders[:6]):
         seq = [objs[i] for i in order]
         if k % 2 == 0:
             calls.append(("Av.from_iterable(list %s)" % (list(order),), L.Av.from_iterable,
                           list(seq)))
         else:
             calls.append(("Av(tuple %s)" % (list(order),), L.Av, tuple(seq)))
-    calls.append(("Av(list)", L.Av, list(objs)))
-    calls.append(("Av.from_iterable(tuple)", L.Av.from_iterable, tuple(objs)))
     calls.append(("Av(basis)", L.Av, base))
-    calls.append(("Av.from_iterable(basis)", L.Av.from_iterable, base))
+    if not light:
+        calls.append(("Av(list)", L.Av, list(objs)))
+        calls.append(("Av.from_iterable(tuple)", L.Av.from_iterable, tuple(objs)))
+        calls.append(("Av.from_iterable(basis)", L.Av.from_iterable, base))
     try:
         calls.append(("Av(frozenset)", L.Av, frozenset(objs)))
-        calls.append(("Av.from_iterable(set)", L.Av.from_iterable, set(objs)))
+        if not light:
+            calls.append(("Av.from_iterable(set)", L.Av.from_iterable, set(objs)))
     except Exception as exc:  # noqa  (hashing a pattern failed)
         part.violation("seq:av", case, {"call": "set(objs)", "exception": repr(exc)})
     got = []
@@ -243,10 +256,12 @@ def av_route(part, specs, objs, orders, base, classical, ref_min, first_seen):
             got.append((name, f(arg), None))
         except Exception as exc:  # noqa
             got.append((name, None, exc))
-    if expect_error:
+    if expect_error and any(isinstance(exc, ValueError) for _, _, exc in got):
+        # the documented refusal of the basis {ε}; it must then be given by every call
         for name, av, exc in got:
             if not isinstance(exc, ValueError):
-                part.violation("seq:av", case, {"call": name, "expected": "ValueError (basis {ε})",
+                part.violation("seq:av", case, {"call": name, "expected": "ValueError (basis {ε}), "
+                                                "as raised by the other calls",
                                                 "got": repr(exc) if exc else repr(av)})
                 return
         return
@@ -279,11 +294,11 @@ def av_route(part, specs, objs, orders, base, classical, ref_min, first_seen):
         first_seen[key] = (ref_av, specs)
     elif old[0] is not ref_av:
         # an equal basis was handed a different class object earlier in this process
-        part.violation("seq:av-identity", {"specs": specs, "route": "Av", "earlier": old[1]},
+        part.violation("seq:av-identity", dict(case, earlier=old[1]),
                        {"basis": repr(ref_av.basis), "earlier_basis": repr(old[0].basis)})
 
 
-def check_collection(part, specs, H, hn, first_seen, earlier=None):
+def check_collection(part, specs, H, hn, first_seen, earlier=None, ident=None, light=False):
     """All checks on one multiset of pattern specs.  Returns (evaluations, nontrivial)."""
     L = lib()
     if earlier is not None and first_seen is not None:
@@ -306,26 +321,46 @@ def check_collection(part, specs, H, hn, first_seen, earlier=None):
     orders = distinct_orders(specs)
     mesh = route(part, "MeshBasis", L.MeshBasis, L.MeshBasis.from_iterable,
                  lambda e: L.MeshPatt(L.Perm(e[0]), sorted(e[1])),
-                 specs, objs, orders, ref_min, H, hn)
+                 specs, objs, orders, ref_min, H, hn, light)
     base = mesh
     if classical:
         base = route(part, "Basis", L.Basis, L.Basis.from_iterable,
-                     lambda e: L.Perm(e[0]), specs, objs, orders, ref_min, H, hn)
+                     lambda e: L.Perm(e[0]), specs, objs, orders, ref_min, H, hn, light)
     if base is not None:
-        av_route(part, specs, objs, orders, base, classical, ref_min, first_seen)
+        av_route(part, specs, objs, orders, base, classical, ref_min, first_seen, ident, light)
     nontrivial = 1 if (len(semset) >= 2 and len(ref_min) < len(semset)) else 0
     return len(orders) * (2 if classical else 1), nontrivial
 
 
-def shard_seq(shard):
-    poolname, hn, combos = shard
+def fresh_class_cache():
+    """Every shard starts from an empty class cache (the library's own reset), so that what a
+    shard observes is a function of the shard alone and can be re-executed."""
+    try:
+        lib().Av.clear_cache()
+    except Exception:  # noqa
+        pass
+
+
+def shard_combos(poolname, size, nsh, index):
     pool = POOLS[poolname]
+    combos = list(itertools.combinations_with_replacement(range(len(pool)), size))
+    return combos[index::nsh]
+
+
+def shard_seq(shard):
+    poolname, hn, size, nsh, index, light = shard
+    pool = POOLS[poolname]
+    combos = shard_combos(poolname, size, nsh, index)
     H = horizon(hn)
     part = Partial()
     first_seen = {}
-    for combo in combos:
+    fresh_class_cache()
+    for k, combo in enumerate(combos):
         specs = [pool[i] for i in combo]
-        n, nt = check_collection(part, specs, H, hn, first_seen)
+        n, nt = check_collection(part, specs, H, hn, first_seen,
+                                 ident={"pool": poolname, "size": size, "nsh": nsh,
+                                        "index": index, "upto": k, "light": light},
+                                 light=light)
         part.add(n, nt)
         part.bump("collections")
         if nt:
@@ -468,10 +503,8 @@ def check_classical_set(part, pset, prof, textmode):
             arg = [L.Perm(p) for p in seq]
             if forbidden:
                 try:
-                    av = L.Av(arg)
-                    part.violation("classical:av", case, {"expected": "ValueError", "got": repr(av)})
-                    return evals
-                except ValueError:
+                    L.Av(arg)
+                except ValueError:      # the documented refusal of the basis {ε}
                     continue
             for av in (L.Av(arg), L.Av.from_iterable(tuple(arg)), L.Av(L.Basis(*arg))):
                 if av0 is None:
@@ -573,7 +606,7 @@ def show_outcome(o):
     return list(o[:2]) + ([showset(o[2])] if len(o) > 2 else [])
 
 
-def check_iterator(part, specs, reported=None):
+def check_iterator(part, specs):
     L = lib()
     want = correct_outcome(specs)
     dev = deviation_iterator(specs)
@@ -588,13 +621,6 @@ def check_iterator(part, specs, reported=None):
         evals += 1
         if got == want:
             continue
-        if got == dev and reported is not None:
-            # known finding: one representative per shard is recorded, the rest is counted
-            # (the violation store is bounded; it must never be filled up with known cases)
-            if reported:
-                part.bump("sig:" + SIG_ITER)
-                continue
-            reported.append(1)
         part.violation("iterator", {"specs": specs, "call": name},
                        {"expected": show_outcome(want), "got": show_outcome(got)},
                        sig=SIG_ITER if got == dev else None)
@@ -605,10 +631,9 @@ def shard_iterator(shard):
     poolname, seqs = shard
     pool = POOLS[poolname]
     part = Partial()
-    reported = []
     for seq in seqs:
         specs = [pool[i] for i in seq]
-        n = check_iterator(part, specs, reported)
+        n = check_iterator(part, specs)
         part.add(n, 1 if (len(set(map(repr, specs))) > 1
                           and len(set(s[0] for s in specs)) > 1) else 0)
     return part
@@ -623,10 +648,12 @@ def run(ctx, only=None):
     quick = ctx.quick
     prepare_pools()
     ctx.rule = ("one evaluation = one construction order of one collection (multiset of patterns "
-                "or set of classical patterns) or one text form; non-trivial = collections with "
-                ">= 2 distinct patterns of which at least one is pruned because it properly "
-                "contains another (so order, minimality and class equality are all exercised); "
-                "each collection is enumerated once")
+                "or set of classical patterns), one text form, or one one-shot-iterator call; "
+                "non-trivial = collections with >= 2 distinct patterns of which at least one is "
+                "pruned because it properly contains another (so order, minimality and class "
+                "equality are all exercised), long-pattern texts in which the long pattern is "
+                "pruned by the short one, iterator sequences mixing kinds; each collection / "
+                "text / sequence is enumerated once")
     ctx.assumptions = [
         "reference containment between mesh patterns: mc/ref_c05.py (rectangle fully shaded and "
         "point free), self-tested against the avoidance semantics of mc/refmodel.py on the pool",
@@ -649,13 +676,18 @@ def run(ctx, only=None):
             pool = POOLS[poolname]
             for size in sizes:
                 e0 = ctx.evals
-                combos = list(itertools.combinations_with_replacement(range(len(pool)), size))
-                # interleave so that every shard has cheap and expensive collections
-                nsh = 16 if len(combos) < 2000 else 96
-                shards = [(poolname, hn, combos[i::nsh]) for i in range(nsh) if combos[i::nsh]]
+                import math
+                ncombos = math.comb(len(pool) + size - 1, size)
+                # interleaved shards: every shard has cheap and expensive collections
+                nsh = 16 if ncombos < 2000 else 96
+                # the largest space (whole pool, size 3) asks for fewer redundant re-constructions
+                # per collection: every order of the constructors, fixed point, from_iterable
+                # (iterator), canonical form, Av through two orders, the basis and a frozenset
+                light = (poolname == "full" and size >= 3)
+                shards = [(poolname, hn, size, nsh, i, light) for i in range(min(nsh, ncombos))]
                 ctx.pmap(shard_seq, shards)
                 ctx.section("seq", pool=poolname, pool_size=len(pool), size=size,
-                            collections=len(combos), evaluations=ctx.evals - e0)
+                            collections=ncombos, evaluations=ctx.evals - e0)
         ctx.bounds["seq"] = [{"pool": p, "pool_size": len(POOLS[p]), "multiset_sizes": list(s),
                               "orders": "all"} for p, s in plan]
         ctx.bounds["seq_class_horizon"] = hn
@@ -718,6 +750,10 @@ def run(ctx, only=None):
         ctx.section("iterator", sequences=len(seqs), evaluations=ctx.evals - e0)
 
 
+    import json
+    ctx.viols.sort(key=lambda v: (v["sig"] is not None, len(json.dumps(v["case"]))))
+
+
 # --------------------------------------------------------------------------------------------
 
 def replay(ctx, rec):
@@ -725,7 +761,24 @@ def replay(ctx, rec):
     prepare_pools()
     if sub.startswith("seq:"):
         hn = case.get("hn", 5)
-        check_collection(ctx, case["specs"], horizon(hn), hn, {}, earlier=case.get("earlier"))
+        H = horizon(hn)
+        fresh_class_cache()
+        probe = Partial()
+        check_collection(probe, case["specs"], H, hn, {}, earlier=case.get("earlier"))
+        ident = case.get("shard")
+        if probe.nviol or not ident:
+            fresh_class_cache()
+            check_collection(ctx, case["specs"], H, hn, {}, earlier=case.get("earlier"))
+        else:
+            # state dependent: re-execute the shard up to and including this collection
+            pool = POOLS[ident["pool"]]
+            combos = shard_combos(ident["pool"], ident["size"], ident["nsh"], ident["index"])
+            fresh_class_cache()
+            first_seen = {}
+            for k, combo in enumerate(combos[:ident["upto"] + 1]):
+                specs = [pool[i] for i in combo]
+                check_collection(ctx if k == ident["upto"] else Partial(), specs, H, hn,
+                                 first_seen, light=ident.get("light", False))
     elif sub.startswith("classical:"):
         pset = tuple(tuple(p) for p in case["patterns"])
         check_classical_set(ctx, pset, profiles(7), "full" if len(pset) <= 2 else "short")
